@@ -43,6 +43,8 @@ pub enum ObsOp {
     CloneWeak(u8),
     DropWeak(u8),
     IntoShared,
+    /// `handle.clone_from(&handle_of_another_observable)`: the handle leaves this observable
+    CloneFromOther(u8),
     Subscribe(u8),
     SubscribeReset(u8),
     SubClone(u8),
@@ -156,6 +158,8 @@ struct W<F: Flavor> {
     trace: Vec<Ev>,
     ignored_other: u32,
     shared: Option<Arc<Flag>>,
+    /// handles of a second, unrelated observable (target of clone_from)
+    other: Vec<F::S>,
 }
 
 fn pick(ix: u8, live: &[usize]) -> Option<usize> {
@@ -579,6 +583,36 @@ impl<F: Flavor> W<F> {
                 }
                 Ok(())
             }
+            ObsOp::CloneFromOther(owner) => {
+                let Some(o) = pick(owner, &self.live_owners()) else { return Ok(()) };
+                if self.owner_has_guard(o) || !matches!(**self.owners[o].as_ref().unwrap(), Own::S(_)) {
+                    return Ok(());
+                }
+                let last = self.live_owners().len() == 1;
+                if last && (wheld || rheld) {
+                    return Ok(());
+                }
+                if self.other.is_empty() {
+                    self.other.push(F::new_shared(OVal::new(9, 9)));
+                }
+                let mut b = self.owners[o].take().unwrap();
+                if let Own::S(h) = &mut *b {
+                    F::s_clone_from(h, &self.other[0]);
+                }
+                // the handle now belongs to the other observable
+                if let Own::S(h) = *b {
+                    if self.other.len() < 4 {
+                        self.other.push(h);
+                    }
+                }
+                self.f.clones_dropped += 1;
+                if last {
+                    self.closed = true;
+                    self.f.closes += 1;
+                    self.all_pending_woken("clone_from replacing the last owner")?;
+                }
+                Ok(())
+            }
             ObsOp::Subscribe(owner) | ObsOp::SubscribeReset(owner) => {
                 let Some(o) = pick(owner, &self.live_owners()) else { return Ok(()) };
                 if self.live_subs().len() >= 5 {
@@ -810,6 +844,7 @@ fn run_flavor<F: Flavor>(case: &ObsCase, prop: Prop) -> R<(CaseReport, OFeat, Ve
         trace: vec![],
         ignored_other: 0,
         shared: if case.shared_waker { Some(Flag::new()) } else { None },
+        other: vec![],
     };
     let v = OVal::new(case.init.0, case.init.1);
     w.owners.push(Some(Box::new(if case.start_shared { Own::S(F::new_shared(v)) } else { Own::U(F::new_unique(v)) })));
@@ -832,7 +867,8 @@ fn run_flavor<F: Flavor>(case: &ObsCase, prop: Prop) -> R<(CaseReport, OFeat, Ve
             w.ev(Ev::V(got), Ev::V(val), &end, || format!("Subscriber::get on {si} after the end of the stream"))?;
         }
     }
-    let W { rep, f, trace, guards, subs, weaks, owners, .. } = w;
+    let W { rep, f, trace, guards, subs, weaks, owners, other, .. } = w;
+    drop(other);
     drop(guards);
     drop(subs);
     drop(weaks);
@@ -1007,6 +1043,7 @@ pub fn op(g: &ObsGen) -> BoxedStrategy<ObsOp> {
                 1 => ix().prop_map(ObsOp::CloneWeak),
                 1 => ix().prop_map(ObsOp::DropWeak),
                 2 => Just(ObsOp::IntoShared),
+                1 => ix().prop_map(ObsOp::CloneFromOther),
             ]
             .boxed(),
         ));
